@@ -73,6 +73,12 @@ CHECKS.update({
          "Maximality of the list not checked; ban strings longer than 3 only in a few fixed thorough cases.", "§5 C17"),
 })
 
+CHECKS.update({
+ "C16": ("deviation-bounded exhaustive enumeration of listings laid out by an independent writer",
+         "Listings with 0..3 records (plus a 60/300-record listing) are written by an independent format-31 writer; every combination of at most 2 (3 thorough) deviations from the default listing is generated: header prose (none, the real header, prose with angle-bracket field names and example supplier lines), supplier-table indent (16 blanks as distributed, tabs), blank lines, final newline, each field empty or filled, 0/1/3 isoschizomers, 0/1/3/15 supplier letters including the table's first letter, extra reference lines. The real Parse must return one entry per record with every field verbatim and every supplier letter decoded through the listing's own table; Export must unmarshal to the same map; Read via a file equals Parse.",
+         "Field text never contains <1>..<8>; nil and empty lists not distinguished.", "§5 C16"),
+})
+
 NOT_YET = {}
 
 props = [json.loads(l) for l in open('/verif/properties.jsonl')]
